@@ -414,28 +414,17 @@ theorem ex_abs_lab : normAbs "/w/l.txt" = true := by
     repeat (rw [String.splitOnAux.eq_1]; simp (decide := true))
   unfold normAbs; simp only [h]; decide
 
-theorem ex_dirname_out : pathDirname "/w/out.bin" = "/w" := by
-  have h : ("/w/out.bin".splitOn "/") = ["", "w", "out.bin"] := by
-    simp [String.splitOn]
-    repeat (rw [String.splitOnAux.eq_1]; simp (decide := true))
-  unfold pathDirname; rw [h]; decide
+theorem ex_dirname_out : pathDirname "/w/out.bin" = "/w" := by decide
 
-theorem ex_dirname_hex : pathDirname "/w/out.bin.hex" = "/w" := by
-  have h : ("/w/out.bin.hex".splitOn "/") = ["", "w", "out.bin.hex"] := by
-    simp [String.splitOn]
-    repeat (rw [String.splitOnAux.eq_1]; simp (decide := true))
-  unfold pathDirname; rw [h]; decide
+theorem ex_dirname_hex : pathDirname "/w/out.bin.hex" = "/w" := by decide
 
-theorem ex_dirname_lab : pathDirname "/w/l.txt" = "/w" := by
-  have h : ("/w/l.txt".splitOn "/") = ["", "w", "l.txt"] := by
-    simp [String.splitOn]
-    repeat (rw [String.splitOnAux.eq_1]; simp (decide := true))
-  unfold pathDirname; rw [h]; decide
+theorem ex_dirname_lab : pathDirname "/w/l.txt" = "/w" := by decide
 
 theorem ex_assembles : assembleText exFS "/w" [] false (.path "/w/m.asm") = .ok ⟨[], [], []⟩ := by
   unfold assembleText frontEnd
-  simp only [ex_abs_main, ex_abs_w]
-  have hr : exFS.readBytes "/w/m.asm" = some [] := by decide
+  have hm : absOk "/w/m.asm" = true := by decide
+  simp only [hm, ex_abs_w, List.all_nil]
+  have hr : exFS.readAt "/w/m.asm" = some [] := by decide
   simp only [hr, bytesToAscii, List.all_nil, if_true, List.map_nil, readLinesAux.eq_2, splitLines,
     splitLinesAux, List.isEmpty_nil, readLinesAux.go.eq_1]
   rfl
